@@ -107,6 +107,10 @@ func (w *Writer) writeFileConfig(res *Result) {
 		if cfg.File {
 			// Omit internal config.
 			fmt.Fprintf(&w.buf, "%s: %s\n", key, cfg.Value)
+		} else if have.File {
+			// File config became internal config. Delete the
+			// key from the file so it doesn't stay in effect.
+			fmt.Fprintf(&w.buf, "%s:\n", key)
 		}
 		have.Value = append(have.Value[:0], cfg.Value...)
 		have.File = cfg.File
